@@ -825,7 +825,8 @@ impl<'a> LineBreaker<'a> {
                             }
                             Kern(kern) => {
                                 if kern.kind == ds::KernKind::Explicit {
-                                    diffs.width -= kern.width;
+                                    // As with glue, the kern does not count towards the next line.
+                                    diffs.width += kern.width;
                                 }
                             }
                             _ => {}
